@@ -318,6 +318,7 @@ func parseList[T Node](p *Parser, kind parsingContext, parseElement func() T) *N
 	var list *NodeList[T]
 	list.SetPos(p.getNodePos())
 	for !p.isListTerminator(kind) {
+		verifTick(15)
 		if p.isListElement(kind) {
 			if list == nil {
 				list = new(NodeList[T])
@@ -367,6 +368,7 @@ func parseDelimitedList[T Node](p *Parser, kind parsingContext, parseElement fun
 	list.SetPos(p.getNodePos())
 	var commaStart = -1 // Meaning the previous token was not a comma
 	for {
+		verifTick(10)
 		if p.isListElement(kind) {
 			list.Add(parseElement())
 			commaStart = p.scanner.GetTokenPos()
@@ -521,6 +523,7 @@ func (p *Parser) parseExpression() Expression {
 	var expr = p.parseAssignmentExpressionOrHigher()
 	// Comma expression
 	for {
+		verifTick(11)
 		operatorToken := p.gotToken(SK_Comma)
 		if operatorToken == nil {
 			break
@@ -531,6 +534,7 @@ func (p *Parser) parseExpression() Expression {
 }
 
 func (p *Parser) parseAssignmentExpressionOrHigher() Expression {
+	verifTick(16)
 	var expr = p.parseBinaryExpression(0)
 	if p.token().IsAssignmentOperator() {
 		return p.makeBinaryExpression(expr, p.parseToken(), p.parseAssignmentExpressionOrHigher())
@@ -565,6 +569,7 @@ func (p *Parser) parseBinaryExpression(precedence int) Expression {
 
 func (p *Parser) parseBinaryExpressionRest(precedence int, leftOperand Expression) Expression {
 	for {
+		verifTick(12)
 		// We either have a binary operator here, or we're finished.  We call
 		var newPrecedence = p.getBinaryOperatorPrecedence()
 
@@ -671,6 +676,7 @@ func (p *Parser) parseUnaryExpression() Expression {
 //  3. + UnaryExpression
 //  4. - UnaryExpression
 func (p *Parser) parseSimpleUnaryExpression() Expression {
+	verifTick(17)
 	switch p.token() {
 	case SK_Plus,
 		SK_Minus,
@@ -697,6 +703,7 @@ func (p *Parser) parseMemberExpressionOrHigher() Expression {
 
 func (p *Parser) parseMemberExpressionRest(expr Expression) Expression {
 	for {
+		verifTick(13)
 		// Must on same line
 		if p.scanner.HasPrecedingLineBreak() {
 			break
@@ -721,6 +728,7 @@ func (p *Parser) parseMemberExpressionRest(expr Expression) Expression {
 
 func (p *Parser) parseCallExpressionRest(expr Expression) Expression {
 	for {
+		verifTick(14)
 		// Must on same line
 		if p.scanner.HasPrecedingLineBreak() {
 			break
